@@ -20,7 +20,7 @@ REQUIRED = ["lists", "blocks", "paths", "mutated_true", "mutated_false", "odd_le
 
 
 def runs(tier, seed):
-    n = 5000 if tier == "quick" else 200000
+    n = 5000 if tier == "quick" else 150000
     return [Run("merkle", cases=n, params={"maxn": 300}, timeout=1800, name="merkle")]
 
 
